@@ -73,7 +73,9 @@ func DecodeString(encoding, code string) (string, error) {
 		}
 		return string(decoded), nil
 	case "", "none":
-		return encoding, nil
+		// Plain text: the code is the code.  (This returned the
+		// encoding's name instead.)
+		return code, nil
 	default:
 		return "", fmt.Errorf("unsupported encoding '%s'", encoding)
 	}
